@@ -27,7 +27,8 @@ Record vopts := { o_nonce : option Z; o_method_id : option url; o_scope : option
                   o_earliest_expiry : Z; o_latest_issuance : Z; o_sh : option (Z * smode); o_status : stmode }.
 
 Inductive verr := VNonce | VKidMissing | VKidParse | VDocMismatch | VMethodLookup | VSignature | VClaims | VSignerUrl
-                | VIdentifierMismatch | VIssuance | VExpiry | VStructure | VSubjectHolder | VStatusInvalid | VServiceLookup | VRevoked.
+                | VIdentifierMismatch | VIssuance | VExpiry | VStructure | VSubjectHolder | VStatusInvalid | VServiceLookup | VRevoked
+                | VSdDecode.      (* SD-JWT only: the disclosures do not decode into the signed claims *)
 
 Definition oz_eqb (a b : option Z) : bool := match a, b with Some x, Some y => x =? y | None, None => true | _, _ => false end.
 Definition is_jwk (data : Z) : bool := 0 <=? data.      (* method data that is a publicKeyJwk *)
